@@ -212,7 +212,14 @@ func TestRAC_C02(t *testing.T) {
 			checkProve(res, w, h, permuted(sub, rng))
 		}
 	}
-	res.Rule = fmt.Sprintf("every reachable state of histories with <= %d leaves / <= %d blocks; every non-empty subset of live leaves in ascending order and in one seeded permutation; plus %d seeded random histories with seeded subsets; provers: Pollard, MapPollard %v; verifiers: Verify, Pollard.Verify, MapPollard.Verify; oracle: specForest.CanonProof. distinct = distinct (state, request) pairs", maxLeaves, maxBlocks, nr, cfgs)
+	// light forests that remember only some leaves (and forget some again): every remembered leaf provable with the
+	// canonical proof after every block, Verify(remember) / Ingest and Prune (the C09 representation invariant)
+	npart := 60
+	if res.thorough() {
+		npart = 800
+	}
+	runLongLivedClients(res, rng, npart, []uint8{0, 3, 63}, false)
+	res.Rule = fmt.Sprintf("(+"+fmt.Sprint(npart)+" seeded long-lived light clients remembering only some leaves: clause MapPollard.partial.rac.provable) "+"every reachable state of histories with <= %d leaves / <= %d blocks; every non-empty subset of live leaves in ascending order and in one seeded permutation; plus %d seeded random histories with seeded subsets; provers: Pollard, MapPollard %v; verifiers: Verify, Pollard.Verify, MapPollard.Verify; oracle: specForest.CanonProof. distinct = distinct (state, request) pairs", maxLeaves, maxBlocks, nr, cfgs)
 	res.Scope = fmt.Sprintf("states=%d", n)
 	res.write(t)
 }
